@@ -41,6 +41,7 @@ type Spec struct {
 	LogOps   bool                `json:"log_ops"`
 	Tail     bool                `json:"tail"`
 	FdLimit  int                 `json:"fd_limit"`
+	RFdLimit int                 `json:"rfd_limit"`
 	KeepDir  bool                `json:"keep_dir"`
 	MaxOut   int                 `json:"max_out"`
 	StagedCap int                `json:"staged_cap"`
@@ -63,6 +64,8 @@ type Result struct {
 	Fired      []FiredFault       `json:"fired"`
 	Deliveries []Delivery         `json:"deliveries,omitempty"`
 	MaxOpenW   int                `json:"max_open_w"`
+	MaxOpenR   int                `json:"max_open_r"`
+	OpenRAtEnd int                `json:"open_r_at_end"`
 	OpenWAtEnd int                `json:"open_w_at_end"`
 	GuardHits  []string           `json:"guard_hits,omitempty"`
 	Reads      int                `json:"reads"`
@@ -147,7 +150,7 @@ func TestSim(t *testing.T) {
 		faults: spec.Faults, chunk: spec.Chunk, crashOp: -1, logOps: spec.LogOps,
 		readBytes: map[*os.File]int64{}, wrBytes: map[*os.File]int64{}, names: map[*os.File]string{},
 		wrOpen: map[*os.File]bool{}, chunkRng: map[*os.File]*uint64{}, pipeFds: map[*os.File]int{}, pipeWFds: map[*os.File]int{},
-		fdLimit: spec.FdLimit, tail: spec.Tail,
+		fdLimit: spec.FdLimit, rfdLimit: spec.RFdLimit, rdOpen: map[*os.File]bool{}, tail: spec.Tail,
 	}
 	if spec.CrashOp != nil {
 		s.crashOp = *spec.CrashOp
@@ -257,6 +260,8 @@ func finalize(spec *Spec, s *seamState, res *Result, realStdout, realStderr, out
 	res.Fired = s.fired
 	res.Deliveries = s.deliveries
 	res.MaxOpenW = s.maxOpenW
+	res.MaxOpenR = s.maxOpenR
+	res.OpenRAtEnd = s.openR
 	res.OpenWAtEnd = s.openW
 	res.GuardHits = s.guardHits
 	res.Reads = s.reads
